@@ -12,6 +12,7 @@ LargestR(e) == LET u == Get(St(e), "largest", "auto") IN IF u = "auto" THEN Unit
 Expected(e) ==
   CASE e.op = "Zoned.fromLocal" -> Disambiguate(Z(e), e.args.w, e.args.dis)
     [] e.op = "Zoned.wall" -> Ok([w |-> Wall(Z(e), e.args.t), off |-> OffsetAt(Z(e), e.args.t)])
+    [] e.op = "Zoned.views" -> IF e.args.via = "string" THEN (LET r == StringTrip(Z(e), e.args.t) IN IF r.kind = "ok" THEN Ok(Views(Z(e), r.val)) ELSE r) ELSE Ok(Views(Z(e), e.args.t))
     [] e.op = "Zoned.fromPartial" -> InterpretBag(Z(e), e.args.w, e.args.offk, e.args.offmin * 60, e.args.dis, e.args.offopt)
     [] e.op = "Zoned.fromStr" -> Interpret(Z(e), e.args.w, e.args.offk, e.args.off, e.args.dis, e.args.offopt, TRUE)
     [] e.op = "Zoned.add" -> ZAdd(Z(e), e.args.t, e.args.dur, Get(e.args, "ovf", "constrain"))
@@ -39,6 +40,7 @@ ClsOf(e) ==
     [] e.op \in {"Zoned.until", "Zoned.since"} -> Largest(e) \o "/" \o ZoneTag(Z(e))
     [] e.op = "ZDur.round" -> "lg-" \o St(e).largest \o "/sm-" \o St(e).smallest \o "/" \o ZoneTag(Z(e))
     [] e.op = "ZDur.total" -> e.args.unit \o "/" \o ZoneTag(Z(e))
+    [] e.op = "Zoned.views" -> "views/" \o e.args.via \o "/" \o ZoneTag(Z(e))
     [] OTHER -> ZoneTag(Z(e))
 TInit == l = 1
 TNext == /\ l <= NEv /\ l' = l + 1
